@@ -212,7 +212,9 @@ def gen_spec(draw, d, must_fail, counter):
     if k == 'list':
         return ['list', n, sub(must_fail)]
     if k in ('coalesce', 'or'):
-        m = draw(st.integers(0, 2))
+        # (the number of abandoned alternatives has no limit in the code: three and four are drawn too -- a bookkeeping
+        # slip that forgives only the first few shows from the third on)
+        m = draw(S_([0, 1, 2, 0, 1, 2, 3, 4]))
         alts = [sub(True) for _ in range(m)]
         alts.append(sub(must_fail))
         if not must_fail and draw(st.booleans()):
@@ -233,7 +235,7 @@ def gen_spec(draw, d, must_fail, counter):
     if k == 'not':
         return ['not', sub(not must_fail)]
     if k == 'switch':
-        cases = [[sub(True), ['ok', 'plain', 0]] for _ in range(draw(st.integers(0, 2)))]
+        cases = [[sub(True), ['ok', 'plain', 0]] for _ in range(draw(S_([0, 1, 2, 0, 1, 2, 3, 4])))]
         if must_fail and draw(st.booleans()):
             cases.append([sub(False), sub(True)])            # key passes, value fails
         elif must_fail:
@@ -261,8 +263,8 @@ def gen_spec(draw, d, must_fail, counter):
             cases.append([sub(False), sub(False)])
         return ['switch', cases]
     # recovered: a step that fails inside and recovers, followed by the rest of the chain
-    rec = ['coalesce', [sub(True) for _ in range(draw(st.integers(1, 2)))] + [sub(False)]] if draw(st.booleans()) \
-        else ['coalesce-default', [sub(True) for _ in range(draw(st.integers(1, 2)))]]
+    rec = ['coalesce', [sub(True) for _ in range(draw(S_([1, 2, 1, 2, 3, 4])))] + [sub(False)]] if draw(st.booleans()) \
+        else ['coalesce-default', [sub(True) for _ in range(draw(S_([1, 2, 1, 2, 3, 4])))]]
     return ['tuple', [rec, sub(must_fail)]]
 
 
@@ -872,6 +874,11 @@ def check(recipe, ctx):
         ctx.label('branch-point')
     if recovered:
         ctx.label('recovered-branch')
+    # a spec that abandoned three or more branches and then went on (seeded change C05-K: only the first two were forgiven)
+    if any(n.exc is None and len([c for c in n.children if c.exc is not None]) >= 3 for n in root.children[0].subtree()):
+        ctx.label('recovered-after-3plus-abandoned')
+    if any(len([c for c in n.children if c.exc is not None and c not in path]) >= 3 for n in path):
+        ctx.label('branch-point-3plus-abandoned')
     if any(p[2] == 'Target' and p[3].endswith(')') and '... (len=' in p[3] or p[3].endswith('...') for p in parsed):
         ctx.label('truncated')
     ctx.nontrivial(depth >= 3 or branchy or recovered)
@@ -1638,7 +1645,7 @@ CLASSIFIERS = {'F36-call-args-lazy': is_call_args_lazy}
 
 SUBS = [
     Sub('trace', check, gen=gen, quick=3000, thorough=10000,
-        floors={'branch-point': 0.1, 'recovered-branch': 0.1, 'depth-3': 0.05, 'linear-exact': 0.1, 'target-contains-itself': 0.01, 'exception-with-own-str': 0.03, 'fails-in-argument-position': 0.02,
+        floors={'branch-point': 0.1, 'recovered-branch': 0.1, 'recovered-after-3plus-abandoned': 0.02, 'branch-point-3plus-abandoned': 0.03, 'depth-3': 0.05, 'linear-exact': 0.1, 'target-contains-itself': 0.01, 'exception-with-own-str': 0.03, 'fails-in-argument-position': 0.02,
                 # entries of several physical lines (F109): an abandoned branch that ends in an error message of several lines (the
                 # closing X belongs on the FIRST line of that entry); error / Spec / Target entries of several lines in the trace
                 'abandoned-branch-ends-in-multiline-error': 0.08, 'multiline-error-entry': 0.145, 'multiline-spec-entry': 0.063,
